@@ -271,7 +271,7 @@ theorem writeBarGrouped_covered (env : Env) (g : BarGraph) (vt : VirtualTerm) (i
 
 /-- `writeBarGrouped` of a row the running maximum covers: only `maxRows` changes, one line per value is written -/
 theorem bars_grouped_row (U : UnitLaws A Dom Unit le) (env : Env) (g : BarGraph) (vt : VirtualTerm) (ho : vt.closed = false) (i : Nat) (key : Bytes)
-    (vals : List Int) (hcov : maxi64 vals ≤ g.maxLineVal) (hdom : ∀ v ∈ vals, Dom v) (hm : Dom g.maxLineVal) (hk : 0 ≤ g.maxKeyLength)
+    (vals : List Int) (hcov : ∀ v ∈ vals, v ≤ g.maxLineVal) (hdom : ∀ v ∈ vals, Dom v) (hm : Dom g.maxLineVal) (hk : 0 ≤ g.maxKeyLength)
     (hb : 0 ≤ g.barSize) (hb' : g.barSize ≤ 1000000000000000) (hp : 0 ≤ g.prefixLines)
     (hsm : g.prefixLines.toNat + i * g.subKeys.length + g.subKeys.length < 4611686018427387904) :
     ∃ m vt', g.writeBarGrouped A env vt (i : Int) key vals = .ok (g.withMaxRows m, vt') ∧ vt'.closed = false ∧
@@ -280,7 +280,7 @@ theorem bars_grouped_row (U : UnitLaws A Dom Unit le) (env : Env) (g : BarGraph)
       (∀ x y, (x < g.prefixLines.toNat + i * g.subKeys.length ∨ g.prefixLines.toNat + i * g.subKeys.length + vals.length ≤ x) →
         vt.lines[x]? = some y → vt'.lines[x]? = some y) := by
   have hfix : vals.foldl (fun m v => if v > m then v else m) g.maxLineVal = g.maxLineVal :=
-    foldl_max_fix vals _ (fun v hv => Int.le_trans ((maxi64_ge vals).2 v hv) hcov)
+    foldl_max_fix vals _ hcov
   have hline : wrap64 (g.prefixLines + wrap64 ((i : Int) * g.subKeys.length)) = ((g.prefixLines.toNat + i * g.subKeys.length : Nat) : Int) := by
     have e : ((i : Int) * (g.subKeys.length : Int)) = ((i * g.subKeys.length : Nat) : Int) := by rw [Int.natCast_mul]
     rw [e]
@@ -329,13 +329,58 @@ theorem bars_writeBar_row (U : UnitLaws A Dom Unit le) (env : Env) (g : BarGraph
       simp [BarCfg.rowStart, BarCfg.slot, hst]; rfl
     have hslot : g.cfg.slot = g.subKeys.length := by simp [BarCfg.slot, hst]; rfl
     rw [if_neg hs]
-    obtain ⟨m, vt', hw, ho', hl, hkeep⟩ := bars_grouped_row U env g vt ho i key vals (by simpa [rowMax, hs] using hcov) hdom hm hk hb hb' hp (by omega)
+    obtain ⟨m, vt', hw, ho', hl, hkeep⟩ := bars_grouped_row U env g vt ho i key vals
+      (fun v hv => Int.le_trans ((maxi64_ge vals).2 v hv) (by simpa [rowMax, hs] using hcov)) hdom hm hk hb hb' hp (by omega)
     refine ⟨m, vt', hw, ho', ?_, ?_⟩
     · unfold RowDrawn; rw [if_neg (by simp [hst]), hstart]
       intro j v hj; exact ⟨_, hl j v hj⟩
     · intro x y hx hy
       have : rowLines g.cfg (key, vals) = vals.length := by simp [rowLines, hst]
       exact hkeep x y (by omega) hy
+
+/-- the running maximum after the loop at the head of `writeBarGrouped` -/
+def groupedMax (g : BarGraph) (vals : List Int) : Int := vals.foldl (fun m v => if v > m then v else m) g.maxLineVal
+
+theorem dom_foldl_max (l : List Int) : ∀ (r : Int), Dom r → (∀ v ∈ l, Dom v) → Dom (l.foldl (fun r v => if v > r then v else r) r) := by
+  induction l with
+  | nil => intro r hr _; exact hr
+  | cons v l ih =>
+    intro r hr hl
+    simp only [List.foldl_cons]
+    apply ih _ _ (fun x hx => hl x (by simp [hx]))
+    split
+    · exact hl v (by simp)
+    · exact hr
+
+/-- `writeBarGrouped` first raises the running maximum to the row's largest value; the rest is the call on that state -/
+theorem writeBarGrouped_raise (env : Env) (g : BarGraph) (vt : VirtualTerm) (idx : Int) (key : Bytes) (vals : List Int) :
+    g.writeBarGrouped A env vt idx key vals = ({ g with maxLineVal := groupedMax g vals } : BarGraph).writeBarGrouped A env vt idx key vals := by
+  have hfix : vals.foldl (fun m v => if v > m then v else m) (groupedMax g vals) = groupedMax g vals :=
+    foldl_max_fix vals _ (foldl_max_ge vals g.maxLineVal).2
+  rw [writeBarGrouped_eq, writeBarGrouped_eq]
+  simp only [hfix]
+  rfl
+
+/-- THE GROUPED-BARS LINE THEOREM: `writeBarGrouped(idx, key, vals…)` on any state, any values: it returns; the running
+maximum is raised to the largest value first; line `j` of the row is the key (first line) or the indentation, the bar
+`BarWrite(Scale(vals[j], 0, maxLineVal'), BarSize)` in the group colour, a blank and `Formatter(vals[j], 0, maxLineVal')` for
+the maximum AFTER raising; nothing outside the row's lines changes -/
+theorem bars_grouped_line (U : UnitLaws A Dom Unit le) (env : Env) (g : BarGraph) (vt : VirtualTerm) (ho : vt.closed = false) (i : Nat) (key : Bytes)
+    (vals : List Int) (hdom : ∀ v ∈ vals, Dom v) (hm : Dom g.maxLineVal) (hk : 0 ≤ g.maxKeyLength)
+    (hb : 0 ≤ g.barSize) (hb' : g.barSize ≤ 1000000000000000) (hp : 0 ≤ g.prefixLines)
+    (hsm : g.prefixLines.toNat + i * g.subKeys.length + g.subKeys.length < 4611686018427387904) :
+    ∃ m vt', g.writeBarGrouped A env vt (i : Int) key vals = .ok (({ g with maxLineVal := groupedMax g vals } : BarGraph).withMaxRows m, vt') ∧
+      vt'.closed = false ∧ g.maxLineVal ≤ groupedMax g vals ∧ (∀ v ∈ vals, v ≤ groupedMax g vals) ∧
+      (∀ (j : Nat) (v : Int), vals[j]? = some v →
+        vt'.lines[g.prefixLines.toNat + i * g.subKeys.length + j]? =
+          some (({ g with maxLineVal := groupedMax g vals } : BarGraph).cfg.groupedText A env g.maxKeyLength key j v)) ∧
+      (∀ x y, (x < g.prefixLines.toNat + i * g.subKeys.length ∨ g.prefixLines.toNat + i * g.subKeys.length + vals.length ≤ x) →
+        vt.lines[x]? = some y → vt'.lines[x]? = some y) := by
+  obtain ⟨ge0, gev⟩ := foldl_max_ge vals g.maxLineVal
+  rw [writeBarGrouped_raise]
+  obtain ⟨m, vt', hw, ho', hl, hkeep⟩ := bars_grouped_row U env ({ g with maxLineVal := groupedMax g vals } : BarGraph) vt ho i key vals
+    gev hdom (dom_foldl_max vals g.maxLineVal hm hdom) hk hb hb' hp hsm
+  exact ⟨m, vt', hw, ho', ge0, gev, hl, hkeep⟩
 
 /-! ### the redraw loop -/
 
